@@ -1,7 +1,7 @@
 (* Lemmas about Model/Log.v: one header line, one row per call, row k starts with k, equal column counts,
    columns are the formatted logged values, rows split back into their columns. *)
 From Coq Require Import ZArith List Lia Bool.
-From Pymoto Require Import Base.Bytes Model.Grid Model.Log Proofs.BytesP.
+From Pymoto Require Import Base.Bytes Model.Grid Model.Log Proofs.BytesP Proofs.FsP.
 Import ListNotations.
 Open Scope Z_scope.
 
@@ -238,6 +238,142 @@ Section LogP.
   (* repaired defect F23: an array with exactly one entry is logged as one column named tag[0] *)
   Theorem single_entry_logged tag x fo : sig_cols tag (LArr [1] [x] fo) = Ok [(tag ++ s2z "[0]", fmt x)].
   Proof. destruct fo; reflexivity. Qed.
+
+  (* ---- the file system: ANY previous content of the target file is gone after the first response ---- *)
+  Notation log_response := (log_response V fmt).
+  Notation log_fs_run := (log_fs_run V fmt).
+  Notation log_event := (log_event V fmt).
+
+  Lemma unlines_snoc ls l : unlines (ls ++ [l]) = unlines ls ++ l ++ [10].
+  Proof. unfold unlines. rewrite flat_map_app. cbn. now rewrite app_nil_r. Qed.
+
+  (* one response on the file system refines one step of the line-list model: if (from the second call on) the file
+     holds the lines of the state, it does so afterwards; at the first call NOTHING is assumed about the file *)
+  Lemma log_response_refines fs m sigs st st' :
+    0 <= m_iter m -> l_iter st = m_iter m ->
+    (m_iter m <> 0 -> fs_read fs (m_saveto m) = Some (log_file st)) ->
+    log_step (m_sep m) st sigs = Ok st' ->
+    exists fs' m', log_response fs m sigs = Ok (fs', m') /\
+      m_saveto m' = m_saveto m /\ m_sep m' = m_sep m /\ m_iter m' = l_iter st' /\ 1 <= m_iter m' /\
+      fs_read fs' (m_saveto m) = Some (log_file st') /\
+      forall other, other <> m_saveto m -> fs_read fs' other = fs_read fs other.
+  Proof.
+    intros Hpos Hit Hfile Hstep. unfold Log.log_step in Hstep. unfold Log.log_response.
+    destruct (all_cols sigs) as [cols|e]; [|discriminate]. injection Hstep as Hst. subst st'.
+    eexists. eexists. split; [reflexivity|]. cbn [Log.m_saveto Log.m_sep Log.m_iter l_iter l_lines].
+    rewrite Hit. repeat split; try lia.
+    - unfold log_file. cbn [l_lines]. rewrite fs_open_a_read.
+      destruct (Z.eqb_spec (m_iter m) 0) as [E0|E0].
+      + rewrite fs_open_w_read. cbn [unlines flat_map]. rewrite app_nil_r. reflexivity.
+      + rewrite (Hfile E0). unfold log_file. now rewrite unlines_snoc.
+    - intros other Hne. rewrite fs_open_a_other by exact Hne.
+      destruct (m_iter m =? 0); [now apply fs_open_w_other|reflexivity].
+  Qed.
+
+  Lemma log_fs_run_refines : forall calls fs m st st',
+    0 <= m_iter m -> l_iter st = m_iter m ->
+    (m_iter m <> 0 -> fs_read fs (m_saveto m) = Some (log_file st)) ->
+    log_run (m_sep m) st calls = Ok st' ->
+    exists fs' m', log_fs_run fs m calls = Ok (fs', m') /\
+      m_saveto m' = m_saveto m /\ m_sep m' = m_sep m /\ m_iter m' = l_iter st' /\
+      (m_iter m' <> 0 -> fs_read fs' (m_saveto m) = Some (log_file st')) /\
+      forall other, other <> m_saveto m -> fs_read fs' other = fs_read fs other.
+  Proof.
+    induction calls as [|c rest IH]; intros fs m st st' Hpos Hit Hfile Hrun; cbn [Log.log_run Log.log_fs_run] in *.
+    - inversion Hrun; subst st'. exists fs, m. repeat split; auto.
+    - destruct (log_step (m_sep m) st c) as [st1|e] eqn:Hs; [|discriminate].
+      destruct (log_response_refines fs m c st st1 Hpos Hit Hfile Hs)
+        as (fs1 & m1 & -> & Hsv & Hsp & Hi1 & Hp1 & Hf1 & Ho1).
+      rewrite <- Hsp in Hrun. rewrite <- Hsv in Hf1.
+      destruct (IH fs1 m1 st1 st') as (fs' & m' & Hr & Hsv' & Hsp' & Hi' & Hf' & Ho');
+        [lia|now symmetry|intros _; exact Hf1|exact Hrun|].
+      exists fs', m'. rewrite Hr. repeat split; try congruence.
+      + intros Hne. rewrite <- Hsv. now apply Hf'.
+      + intros other Hne. rewrite Ho' by congruence. now apply Ho1.
+  Qed.
+
+  (* the number of steps taken *)
+  Lemma log_run_iter sep : forall calls st st', log_run sep st calls = Ok st' ->
+    l_iter st' = l_iter st + Z.of_nat (length calls).
+  Proof.
+    induction calls as [|c rest IH]; intros st st' H; cbn [Log.log_run] in H.
+    - inversion H. cbn. lia.
+    - destruct (log_step sep st c) as [st1|] eqn:Hs; [|discriminate]. rewrite (IH _ _ H).
+      unfold Log.log_step in Hs. destruct (all_cols c); [|discriminate]. inversion Hs. cbn [l_iter length]. lia.
+  Qed.
+
+  (* a new module instance (iteration 0), n >= 1 calls, ANY file system before: the file holds exactly the lines of
+     the line-list model (header + n rows); every other file is untouched *)
+  Theorem log_any_fs fs saveto sep c0 rest st :
+    log_run sep l_init (c0 :: rest) = Ok st ->
+    exists fs' m', log_fs_run fs (mkM saveto sep 0) (c0 :: rest) = Ok (fs', m') /\
+      m_iter m' = Z.of_nat (length (c0 :: rest)) /\
+      fs_read fs' saveto = Some (log_file st) /\
+      forall other, other <> saveto -> fs_read fs' other = fs_read fs other.
+  Proof.
+    intros Hrun.
+    destruct (log_fs_run_refines (c0 :: rest) fs (mkM saveto sep 0) l_init st) as (fs' & m' & Hr & _ & _ & Hi & Hf & Ho);
+      cbn [Log.m_iter Log.m_sep Log.m_saveto]; try lia; try reflexivity; [exact Hrun|].
+    cbn [Log.m_saveto] in *. pose proof (log_run_iter _ _ _ _ Hrun) as Hn. cbn [l_init l_iter] in Hn.
+    exists fs', m'. repeat split; try assumption; [lia|].
+    apply Hf. rewrite Hi, Hn. cbn [length]. lia.
+  Qed.
+
+  (* the statement of the property on the file system, from the inputs: whatever the files were before *)
+  Theorem log_file_any_fs fs saveto sep c0 rest :
+    Forall (fun tv => loggable (snd tv)) c0 ->
+    Forall (fun c => same_call c0 c /\ Forall (fun tv => loggable (snd tv)) c) rest ->
+    exists fs' m' lines names,
+      log_fs_run fs (mkM saveto sep 0) (c0 :: rest) = Ok (fs', m') /\
+      m_iter m' = Z.of_nat (length (c0 :: rest)) /\
+      fs_read fs' saveto = Some (unlines lines) /\
+      (forall other, other <> saveto -> fs_read fs' other = fs_read fs other) /\
+      length lines = S (length (c0 :: rest)) /\
+      nth 0 lines [] = join sep (s2z "Iteration" :: names) /\
+      forall k, (k < length (c0 :: rest))%nat ->
+        nth (S k) lines [] = join sep (dec (Z.of_nat k) :: map fmt (call_vals (nth k (c0 :: rest) []))) /\
+        length (call_vals (nth k (c0 :: rest) [])) = length names.
+  Proof.
+    intros H0 Hrest. destruct (log_shape sep c0 rest H0 Hrest) as (st & names & Hrun & _ & Hlen & Hhd & Hrows).
+    destruct (log_any_fs fs saveto sep c0 rest st Hrun) as (fs' & m' & Hr & Hi & Hf & Ho).
+    exists fs', m', (l_lines st), names.
+    split; [exact Hr|]. split; [exact Hi|]. split; [exact Hf|]. split; [exact Ho|]. split; [exact Hlen|].
+    split; [exact Hhd|exact Hrows].
+  Qed.
+
+  (* in a history of events, consecutive calls of one module instance are a run of log_fs_run *)
+  Fixpoint log_world_run (w : lworld) (events : list (levent V)) : res (lworld) :=
+    match events with
+    | [] => Ok w
+    | e :: rest => match log_event w e with Err x => Err x | Ok w' => log_world_run w' rest end
+    end.
+
+  Lemma lset_nth_get {A} : forall (l : list A) k x y, nth_error l k = Some y -> nth_error (lset_nth l k x) k = Some x.
+  Proof.
+    induction l as [|a l IH]; intros [|k] x y H; cbn in *; try discriminate; [reflexivity|]. eapply IH; eauto.
+  Qed.
+
+  Lemma lset_nth_twice {A} : forall (l : list A) k x y, lset_nth (lset_nth l k x) k y = lset_nth l k y.
+  Proof. induction l as [|a l IH]; intros [|k] x y; cbn; try reflexivity. now rewrite IH. Qed.
+
+  Lemma lset_nth_same {A} : forall (l : list A) k x, nth_error l k = Some x -> lset_nth l k x = l.
+  Proof.
+    induction l as [|a l IH]; intros [|k] x H; cbn in *; try discriminate.
+    - now inversion H.
+    - now rewrite IH.
+  Qed.
+
+  Theorem world_calls_are_run id : forall calls fs mods m fs' m',
+    nth_error mods id = Some m -> log_fs_run fs m calls = Ok (fs', m') ->
+    log_world_run (fs, mods) (map (LCall id) calls) = Ok (fs', lset_nth mods id m').
+  Proof.
+    induction calls as [|c rest IH]; intros fs mods m fs' m' Hm Hrun; cbn [Log.log_fs_run map log_world_run] in *.
+    - inversion Hrun; subst. now rewrite lset_nth_same.
+    - destruct (log_response fs m c) as [[fs1 m1]|e] eqn:Hs; [|discriminate].
+      unfold Log.log_event. rewrite Hm, Hs.
+      rewrite (IH fs1 (lset_nth mods id m1) m1 fs' m' (lset_nth_get _ _ _ _ Hm) Hrun).
+      now rewrite lset_nth_twice.
+  Qed.
 End LogP.
 
 (* ---- C order: the multi-indices of a shape are visited with offsets 0, 1, 2, ... ---- *)
